@@ -109,7 +109,7 @@ RPre == FromLog(Ev.pre, Ev.ext, "")
 RPost == FromLog(Ev.post, <<>>, "")
 RPost2 == FromLog(Ev.post2, <<>>, "")
 RSaved == FromLog(Ev.saved, <<>>, "")
-REng == WithCfg([NewEngine(IF Ev.mode = "P" THEN Volatile(RPre) ELSE RPre) EXCEPT !.initd = ~Ev.fresh], Ev.cfg)
+REng == WithCfg([NewEngine(IF Ev.mode = "P" THEN Volatile(RPre) ELSE RPre) EXCEPT !.initd = ~Ev.fresh, !.execd = Ev.pending, !.exiting = Ev.pending], Ev.cfg)
 \* "until the flag is cleared": with ResetOnEmptyInput the empty input clears TERMINATE and restarts the session
 Restarts == Ev.cfg.rempty /\ Ev.input = ""
 RQ == ExecReq(REng, Ev.input, Ev.incls)
